@@ -725,6 +725,11 @@ class Rig:
         orig = self.loop.run_in_executor
 
         def run_in_executor(executor, fn, *args):
+            if self.hooks.changing() and not getattr(self.hooks.tls, "recorded", False):
+                # the save is submitted from inside a pairing change: note the state of memory now, before the
+                # job exists (whatever it installs later must already be known to the oracle as a state that existed)
+                self.hooks.tls.recorded = True
+                self.record_version()
             with self.hooks.loglock:
                 jid = self.njobs
                 self.njobs += 1
@@ -794,6 +799,7 @@ class Rig:
 
         async def go():
             self.hooks.begin_change()
+            self.hooks.tls.recorded = False
             try:
                 if op["op"] == "pair":
                     self.driver.pair(op["id"].encode(), bytes.fromhex(op["key"]), bytes([op["perm"]]))
@@ -801,7 +807,8 @@ class Rig:
                     self.driver.unpair(uuid.UUID(op["id"]))
             finally:
                 self.hooks.end_change()
-            self.record_version()
+            if not self.hooks.tls.recorded:
+                self.record_version()
 
         def run():
             try:
@@ -1744,7 +1751,7 @@ def midread_stream(ctx: Ctx, model_cases: list):
             if ctx.quick and name != "pair-new" and pt[0] in ("read:mac", "read:private_key", "read:public_key", "write"):
                 continue
             cmds = [["mut", opA], ["run", 0, pt], ["mut", op2], ["run", 0, None], ["run", 1, None], ["runL"], ["run", 1, None]]
-            res, rlog = schedule_case(ctx, scn, cmds, model_cases)
+            res, rlog = schedule_case(ctx, scn, cmds, model_cases, timeout=0.1)
             st.hit("op", "midread:change-inside-a-save")
             if not sampled and pt[0] == "read:client_properties":
                 sampled = True
@@ -1760,7 +1767,7 @@ def midread_stream(ctx: Ctx, model_cases: list):
             for nth in (1, 2) if name == "unpair-last-admin-sweeps-all" and w != "uuid_to_bytes" else (1,):
                 scn = {"name": "midchange-" + name, "initial": i0}
                 cmds = [["mut", first], ["run", 0, None], ["mut", op2, ["mwrite:" + w, nth]], ["save"], ["run", 1, None], ["runL"], ["run", 1, None], ["run", 2, None]]
-                schedule_case(ctx, scn, cmds, model_cases)
+                schedule_case(ctx, scn, cmds, model_cases, timeout=0.1)
                 st.hit("op", "midread:save-inside-a-change")
     # random: 2-3 changes and extra saves, parking points drawn from reads and stores
     pts_job = [["read:" + n, 1] for n in order[:6]] + [["mktemp", 1], ["write", 1], ["close", 1], ["replace", 1], None]
